@@ -39,6 +39,8 @@ def run(chk):
     chk.trusted = ['python3 ast', 'statement CFG of vcheck/pyflow.py', 'documented semantics of scipy eigsh/eigh: A v = w M v']
     chk.assumptions = ['accuracy, ordering and selection of the eigenvalues returned by ARPACK/LAPACK are not decided',
                        'K+kG0_* combinations of ConeCyl.lb (combined load cases) count as the stiffness side']
+    pyrules.check_remove_null_cols(chk, 'R05.2')
+    pyrules.check_unconditional_recompute(chk, 'R05.5', 'compmech/panel/_panel.py', 'Panel', 'lb', 2)
     nsites = 0
     tables = {}
     for rel, cls, meth in SITES:
